@@ -166,6 +166,56 @@ Lemma or_default_iff_absent l k d :
   /\ (forall v, massoc k l = Some v -> c_get (VMap l) k d = Ok v).
 Proof. unfold c_get. split; [intro H|intros v H]; rewrite H; reflexivity. Qed.
 
+(** * :or is keyed on CONTAINMENT of the name in the :or map, not on the truthiness of the default
+    form.  For every kind of map binder (:keys / :strs / :syms element, {sym key} entry): when :or
+    has an entry for the name, the emitted binding is the 3-argument get with that default, and on
+    a map that lacks the key it evaluates to the default's value [dv] -- for EVERY [dv], false and
+    nil included.  (A transcription with [(if-let [d (get ors sym)] ...)] instead of
+    [(contains? ors sym)] would emit [EGet2] for a literal false and bind nil.) *)
+Lemma or_default_any_value :
+  forall (sh : shape) (datum : expr C -> cval) (nm : name) (ors : list (str * expr C)) (x : str)
+         (ns : option str) (de : expr C) (l : list (cval * cval)) (dv : cval) (en : env C),
+    assoc x ors = Some de ->
+    lookup nm en = Some (VMap l) ->
+    eval en de = Ok dv ->
+    (kw_binding C nm ors (ns, x) = (NU x, @EGet3 C (EVar nm) (@EConst C (VKw ns x)) de)
+     /\ (massoc (VKw ns x) l = None -> eval en (snd (kw_binding C nm ors (ns, x))) = Ok dv))
+    /\ (str_binding C nm ors x = (NU x, @EGet3 C (EVar nm) (@EConst C (VStr x)) de)
+        /\ (massoc (VStr x) l = None -> eval en (snd (str_binding C nm ors x)) = Ok dv))
+    /\ (sym_binding C nm ors (ns, x) = (NU x, @EGet3 C (EVar nm) (@EConst C (VSym ns x)) de)
+        /\ (massoc (VSym ns x) l = None -> eval en (snd (sym_binding C nm ors (ns, x))) = Ok dv))
+    /\ (forall k kv, named_binding C cur_shape datum nm ors k (NU x) = (NU x, @EGet3 C (EVar nm) k de)
+        /\ (eval en k = Ok kv -> massoc kv l = None ->
+            eval en (snd (named_binding C cur_shape datum nm ors k (NU x))) = Ok dv)).
+Proof.
+  intros sh datum nm ors x ns de l dv en Ha Hl Hd.
+  unfold kw_binding, str_binding, sym_binding, named_binding, ors_get, get_binding.
+  cbn [fst snd quote_or_key cur_shape]. rewrite Ha. cbn [snd].
+  assert (G : forall k kv, eval en k = Ok kv -> massoc kv l = None ->
+                           eval en (@EGet3 C (EVar nm) k de) = Ok dv).
+  { intros k kv Hk Hm. cbn [eval]. rewrite Hl, Hk, Hd. cbn. unfold c_get. rewrite Hm. reflexivity. }
+  repeat split; try (intro Hm; eapply G; [reflexivity|exact Hm]).
+  intros Hk Hm. eapply G; eassumption.
+Qed.
+
+(** end to end, model and specification: (let [{:keys [a] :or {a false}} {}] a) = false, with a nil
+    default nil, with 0 the integer 0; a present nil / false is kept *)
+Definition w_or (d v : option cval) : list (pat C * expr C) :=
+  [(PMap [(None, [(None, a_)])] [] [] (@MNil C)
+         (match d with Some dv => [(a_, @EConst C dv)] | None => [] end) None,
+    @EConst C (VMap (match v with Some x => [(VKw None a_, x)] | None => [] end)))].
+
+Example or_falsey_defaults :
+  let run d v := (finish [a_] (model_let cur_shape (w_or d v)), finish [a_] (bind_let C (w_or d v) [])) in
+  run (Some (VBool false)) None = (OVals [VBool false], OVals [VBool false])
+  /\ run (Some VNil) None = (OVals [VNil], OVals [VNil])
+  /\ run (Some (VInt 0)) None = (OVals [VInt 0], OVals [VInt 0])
+  /\ run None None = (OVals [VNil], OVals [VNil])
+  /\ run (Some (VBool false)) (Some VNil) = (OVals [VNil], OVals [VNil])
+  /\ run (Some (VInt 1)) (Some (VBool false)) = (OVals [VBool false], OVals [VBool false])
+  /\ out_eqb (OVals [VBool false]) (OVals [VNil]) = false.
+Proof. vm_compute. repeat split. Qed.
+
 (** * Non-vacuity: a depth-3 pattern with every construct meets the premises, and binds *)
 Definition p_big : pat C :=
   PVec (PCons (PMap [(None, [(None, a_); (Some (s_ "q"), b_)])] [c_] [(None, [(None, x_)])]
